@@ -235,7 +235,7 @@ theorem judge_within_sound (ds : List (Dec × Dec)) (cs : List FPCoordinate) :
   ⟨coordsWithinB_iff ds cs, Tbx.PlierRat.withinMicro_iff_rat⟩
 
 example : WithinMicro ⟨123456, 3⟩ 1234 ∧ WithinMicro ⟨-1, 0⟩ (-9) ∧ ¬ WithinMicro ⟨-1, 0⟩ (-8) := by
-  decide
+  simp [WithinMicro]
 
 /-! ## Part E: stated, not proved -/
 
